@@ -15,6 +15,8 @@ ops of the second run (go result | model result):
   det   deterministic single-threaded scenario: the results of every step, on both sides
   cac   n CommitMessages calls after Close returned: <cp>:<ctx>:<nil>:<oth> counts; the model echoes
         them when every observed outcome is one the model allows (regression of /repo 0aeb2fd: all cp)
+  gse   ConsumerGroup API: the generation ends on its own (heartbeat answered 27 / 25 / dropped) while a Start-ed function
+        needs time to wind down, then Close: fnret_before_close=1,join_before_fnret=0 on both sides
   nlv   deterministic regression of /repo da142dd (LeaveGroup after a failed re-join): lv=<LeaveGroup count>
 """
 import hashlib, json, os
@@ -89,7 +91,7 @@ def reader_run(ctx):
     lines = []
     for c in cases:
         c["n"] = n
-        lines.append(c["line"] + (" | " + c["go"] if c["op"] in ("cac", "nlv") else ""))
+        lines.append(c["line"] + (" | " + c["go"] if c["op"] in ("cac", "nlv", "gse") else ""))
     res = L.run_model(model, "\n".join(lines) + "\n", timeout=1200)
     for c in cases:
         c["model"] = res.get(c["id"])
@@ -125,6 +127,10 @@ def reader_failures_of_case(c):
                 out.append(("property", "Reader.Close (or CloseIdleConnections) did not return within the watchdog: " + part, None))
             elif part.startswith("HANG"):
                 out.append(("property", "a blocked call did not return within the watchdog although its context ended or the Reader was closed: " + part, None))
+            elif part.startswith("OVERLAP"):
+                out.append(("property", "a generation that had ended on its own was not joined: the re-join / LeaveGroup / return of Reader.Close came while the "
+                                        "commit loop of that generation was still inside its OffsetCommit round trip (its coordinator connection was closed under it): "
+                                        "Generation.close must wait on g.joined on every path; theorem C09_r_generation_joined, skeleton assumption R19", None))
             elif part.startswith("PANIC"):
                 out.append(("property", "kafka-go panicked during a lifecycle scenario: " + part[:300], None))
             elif part.startswith("LEAK"):
@@ -181,6 +187,21 @@ def reader_failures_of_case(c):
         except ValueError:
             out.append(("correspondence", "unreadable cac result " + go[:100], None))
         return out
+    if op == "gse":
+        if go.startswith(("HANG", "PANIC")):
+            out.append(("property", "generation-self-end scenario: " + go[:200], None))
+            return out
+        a, b = _field(go, "fnret_before_close"), _field(go, "join_before_fnret")
+        if a != "1" or b != "0":
+            out.append(("property", "a generation that had ended on its own (failed heartbeat) was not joined: ConsumerGroup.Close returned / the next "
+                                    "JoinGroup was sent while a function started with Generation.Start was still running (Generation.close must wait on "
+                                    "g.joined on every path; theorem C09_r_generation_joined, skeleton assumption R19)", None))
+        elif (a, b) != (_field(model or "", "fnret_before_close"), _field(model or "", "join_before_fnret")):
+            out.append(("correspondence", f"generation-self-end scenario: implementation {go}, model {model}", None))
+        cen = _field(go, "census")
+        if cen and cen != "ok":
+            out.append(("property", "goroutines or connections of a ConsumerGroup outlive Close beyond the grace period: " + cen[:100], None))
+        return out
     if op == "nlv":
         if go.startswith(("HANG", "PANIC")):
             out.append(("property", "failed-re-join scenario: " + go[:200], None))
@@ -196,7 +217,7 @@ def reader_failures_of_case(c):
     return [("correspondence", "unknown op of cmd/c09r: " + op, None)]
 
 
-R_TRIVIAL = {"fake=groupfake", "fake=fetchfake", "kind=ok", "kind=idle", "det", "cac", "nlv"}
+R_TRIVIAL = {"fake=groupfake", "fake=fetchfake", "kind=ok", "kind=idle", "det", "cac", "nlv", "gse"}
 
 
 def reader_half(ctx):
